@@ -66,6 +66,18 @@ def make_prior(ssm, cfg, tcoeffs, base_scale, init_std=None):
     else:
         scale = None if base_scale is None else jnp.broadcast_to(jnp.asarray(base_scale), (d,))
     kind = cfg.get("init", "exact")
+    pk = cfg.get("prior", "iwp")
+    if pk != "iwp":
+        # exponential priors (dense only): same initial-condition options through the public constructors
+        kw = dict(output_scale=scale)
+        if kind == "inexact":
+            kw.update(is_exact=False, inexact_eps=cfg.get("inexact_eps", 1e-3))
+        elif kind != "exact":
+            raise ValueError("exponential priors are generated with exact/inexact initial states only")
+        if pk == "ou":
+            theta = jnp.asarray(np.asarray(cfg["prior_theta"], float))
+            return ssm.prior_ornstein_uhlenbeck_integrated(lambda s: theta @ s, tcoeffs, **kw)
+        return ssm.prior_matern(float(cfg["prior_length_scale"]), tcoeffs, **kw)
     if kind == "exact":
         return ssm.prior_wiener_integrated(tcoeffs, output_scale=scale)
     if kind == "inexact":
@@ -125,7 +137,7 @@ def make_solver(ssm, cfg, constraint, constraint_init=None):
 
 
 def structure_key(cfg):
-    keys = ["fact", "calib", "strategy", "lin", "n", "d", "order", "degree", "init", "cinit", "num_steps", "diffuse", "jac", "has_base", "inexact_eps", "diffuse_eps"]
+    keys = ["fact", "calib", "strategy", "lin", "n", "d", "order", "degree", "init", "cinit", "num_steps", "diffuse", "jac", "has_base", "inexact_eps", "diffuse_eps", "prior", "prior_theta", "prior_length_scale"]
     return tuple((k, str(cfg.get(k))) for k in keys) + (("flags", str(cfg.get("flags"))),)
 
 
